@@ -1,6 +1,7 @@
 """Load-time AST rewrites (applied to the in-memory copy of the real source only).
 
 1. obj[key] loads, obj.get(k), x in c      -> helpers that fork over symbolic keys
+1b. a / b                                  -> helper that keeps int / int as an exact rational next to the float
 2. "fmt" % x, "sep".join(..), "..".format  -> modelled rendering helpers
 3. bare `except:`                          -> `except Exception:` (engine control flow uses BaseException)
 4. if-conversion of `if C: <assignments>`  in allow-listed functions (CRC-style loops): one path instead of 2^n
@@ -26,6 +27,8 @@ class Rewrite(ast.NodeTransformer):
         if isinstance(node.op, ast.Mod) and isinstance(node.left, (ast.Constant, ast.JoinedStr)) and \
                 (not isinstance(node.left, ast.Constant) or isinstance(node.left.value, str)):
             return ast.Call(_name("__symx_fmt__"), [node.left, node.right], [])
+        if isinstance(node.op, ast.Div):
+            return ast.Call(_name("__symx_div__"), [node.left, node.right], [])
         return node
 
     def visit_Call(self, node):
